@@ -609,16 +609,28 @@ def tree_spec(tr):
         return None
 
 
+def run_dir():
+    """one directory (and overlay file) per checking process: concurrent runs never share files"""
+    import atexit
+    import shutil
+    d = os.path.join(BUILD, "run", "c03", "p%d" % os.getpid())
+    if not os.path.isdir(d):
+        os.makedirs(d, exist_ok=True)
+        atexit.register(shutil.rmtree, d, True)
+        ovp = os.path.join(BUILD, "overlay", "c03_p%d.json" % os.getpid())
+        atexit.register(lambda: os.path.exists(ovp) and os.remove(ovp))
+    return d
+
+
 def run_cases(texts, tag, seed, nvals, exe, keep_vals=False, hang_ms=8000, specs=None):
     """-> (results by index, model lines by index, note). specs[i]: the checker's own reading of texts[i] (or None)"""
-    d = os.path.join(BUILD, "run", "c03")
-    os.makedirs(d, exist_ok=True)
+    d = run_dir()
     cf = os.path.join(d, "cases_%s.txt" % tag)
     with open(cf, "w") as f:
         for i, t in enumerate(texts):
             sp = specs[i] if specs else None
             f.write(json.dumps(t if sp is None else {"q": t, "spec": sp}) + "\n")
-    ov = go_overlay(HARNESS, "c03")
+    ov = go_overlay(HARNESS, "c03_p%d" % os.getpid())
     results, mlines, note = {}, {}, ""
     skip = 0
     rounds = 0
